@@ -27,6 +27,11 @@ def main():
     if not proof['ok']:
         why = proof.get('structural') or proof.get('bad_axioms') or proof.get('log', '')[-1500:] or 'proof file did not check'
         broken.append("Props/%s.v no longer checks: %s" % (pid, why))
+    if a.tier == 'thorough' and proof.get('compiled'):
+        ck = checklib.coqchk_status(pid)
+        chk.cov['coqchk'] = dict(ok=ck['ok'], axioms=ck['axioms'], wall_s=ck['wall'], unsafe=ck['unsafe'])
+        if not ck['ok']:
+            broken.append("coqchk -o does not accept Props/%s.vo: %s" % (pid, ck['bad_axioms'] or ck['unsafe'] or ck['log'][-600:]))
     model = Model('fast') if build['model_ok'] else None
     if model is None:
         broken.append("model did not build: " + build['log'][-1500:])
